@@ -42,6 +42,12 @@ def init : Orswot M A := ⟨∅, ∅, ∅⟩
 def setOfList (l : List M) : FSet M := l.foldl (fun acc m => acc.insert m ()) ∅
 def unionSet (a b : FSet M) : FSet M := b.l.foldl (fun acc p => acc.insert p.1 ()) a
 
+/-- `deferred.entry(c).or_default().extend(ms)` -/
+def deferInsert (d : FMap (VClock A) (FSet M)) (c : VClock A) (ms : FSet M) : FMap (VClock A) (FSet M) :=
+  match d.get? c with
+  | some ex => d.insert c (unionSet ex ms)
+  | none => d.insert c ms
+
 /-- one member of the loop src/orswot.rs:276-283 -/
 def rmMember (c : VClock A) (e : FMap M (VClock A)) (m : M) : FMap M (VClock A) :=
   match e.get? m with
@@ -114,8 +120,8 @@ def merge (s o : Orswot M A) : Orswot M A :=
   let s2 := o.deferred.l.foldl (fun acc p => applyRm acc p.2 p.1) s1
   applyDeferred { s2 with clock := s2.clock.merge o.clock }
 
-/-- src/orswot.rs:202-230 `reset_remove`.  `collect()` into a `HashMap`: when two deferred clocks collide after
-subtraction, the LAST one in iteration order wins (hash order in Rust, key order here) -/
+/-- src/orswot.rs:202-229 `reset_remove` (after the fix c462df9: deferred removes whose clocks collide after
+subtraction are united) -/
 def resetRemove (s : Orswot M A) (c : VClock A) : Orswot M A :=
   { clock := s.clock.resetRemove c
     entries := s.entries.filterMap (fun _ vc =>
@@ -123,7 +129,7 @@ def resetRemove (s : Orswot M A) (c : VClock A) : Orswot M A :=
       if vc'.isEmpty then none else some vc')
     deferred := s.deferred.l.foldl (fun acc p =>
       let k := p.1.resetRemove c
-      if k.isEmpty then acc else acc.insert k p.2) ∅ }
+      if k.isEmpty then acc else deferInsert acc k p.2) ∅ }
 
 /-- src/orswot.rs:298-306 -/
 def contains (s : Orswot M A) (m : M) : ReadCtx Bool A :=
